@@ -434,7 +434,8 @@ def check_axes(E, r, dims, il0, il_step, xl0, xl_step, z0, dz_ms, label):
 
 
 def check_axes_fp(E, mm, st, model, dims, label):
-    """C05, binary64 part: interval field, sample count and sample values for any whole-microsecond interval."""
+    """C05, binary64 part: interval field, start time, sample count and sample values for any whole-microsecond interval.
+    All four obligations depend on float results and are decided in the QF_BVFP world (symx.fpworld)."""
     from symx.symfloat import SymFloat, to_fp
     R = mm['read']
     n_s = dims[-1]
@@ -449,11 +450,12 @@ def check_axes_fp(E, mm, st, model, dims, label):
     k = E.fresh('k_z', 0)
     E.assume(b_and(k < n_s, k < zs.shape[0]))
     v = aget(zs, k)
-    # true value t0 + k * interval_us / 1000 (exact rational), compared within 1e-6 ms
-    exact = z3.fpRealToFP(z3.RNE(), z3.ToReal(term_(model.t0_ms)) + z3.ToReal(term_(k)) * z3.ToReal(term_(model.dt_us_fp)) / 1000, z3.Float64())
     if isinstance(v, SymFloat):
-        diff = z3.fpAbs(z3.fpSub(z3.RNE(), v.t, exact))
-        E.check(mkbool(z3.fpLEQ(diff, z3.FPVal(1e-6, z3.Float64()))), label + ': sample axis value k is t0 + k*interval within float rounding')
+        # |v - (t0 + k*interval_us/1000)| <= 1e-6 ms, written without a division: T = 1000*t0 + k*interval_us is an exact
+        # integer (< 2^53), and |1000*v - T| <= 1e-3 (the product 1000*v is itself rounded: < 1e-8 here)
+        T = model.t0_ms * 1000 + k * model.dt_us_fp
+        diff = abs(v * 1000.0 - SymFloat(to_fp(T)))
+        E.check(diff <= 1e-3, label + ': sample axis value k is t0 + k*interval within float rounding (1e-6 ms)')
     else:
         E.check(False, label + ': sample axis value is not a float (%s)' % type(v).__name__)
 
@@ -538,13 +540,18 @@ def segy_item(kind, bs, rate, nb, props, opts=None):
         if opts.get('samples') == 'fp':
             # any whole number of microseconds: binary64 arithmetic of the sample axis is decided with z3's FP theory
             import symx.core as _core
+            from symx import fpworld as _fw
             _core.FP_MODE[0] = True
+            _fw.reset()
+            _fw.CFG.update(z3_ms=20000, cvc5_s=opts.get('cvc5_s', 300), use_cvc5=True)
             t0_ms = E.fresh('t0_ms', *opts.get('t0_range', (-32768, 32767)))
             dt_us_fp = E.fresh('dt_us', *opts.get('dt_range', (1, 65535)))
             dt_ms = None
         else:
             import symx.core as _core
+            from symx import fpworld as _fw
             _core.FP_MODE[0] = False
+            _fw.reset()
         if kind == '2d':
             ntr = E.fresh('n_tr', max(2, (nb[0] - 1) * bs[1] + 1), nb[0] * bs[1])
             # enumerated: just above the last full group, and the exact multiple of the group size
@@ -555,6 +562,9 @@ def segy_item(kind, bs, rate, nb, props, opts=None):
             else:
                 E.assume(b_or(ntr <= max(2, (nb[0] - 1) * bs[1]) + cap + 1, ntr == nb[0] * bs[1]))
             n_s = E.fresh('n_s', max(2, (nb[1] - 1) * bs[2] + 1), nb[1] * bs[2])
+            if opts.get('ns_fixed') is not None:
+                E.assume(n_s == opts['ns_fixed'])
+                n_s = int(n_s)
             ntr = int(ntr)      # the converters build range() objects over the traces: enumerated within the stated cap
             model = shsegy.SegyModel('2d', n_s, fmt=fmt, ext=ext, tracecount=ntr, varying=varying, consts=consts,
                                      t0_ms=t0_ms, dt_ms=dt_ms)
@@ -573,6 +583,9 @@ def segy_item(kind, bs, rate, nb, props, opts=None):
             if opts.get('ilxl'):
                 E.assume(b_and(n_il == opts['ilxl'][0], n_xl == opts['ilxl'][1]))
             n_il, n_xl = int(n_il), int(n_xl)      # Geometry3d builds range() objects over both line axes: enumerated within the cap
+            if opts.get('ns_fixed') is not None:
+                E.assume(n_s == opts['ns_fixed'])      # float items: one trace length per item (it multiplies floats)
+                n_s = int(n_s)
             if opts.get('reduce_iops'):
                 n_s = int(n_s)      # byte offsets of the reduced-I/O reader are products with the trace length: enumerated (ns_cap)
             if opts.get('axes') == 'sym':
@@ -1070,11 +1083,18 @@ def items_for(prop, tier):
                 cfgs.append(('regular', (4, 4, 256), 8, (2, 2, 1), dict(axes='sym', il_step=steps[0], xl_step=steps[1], dimcap=1)))
             cfgs.append(('regular', (4, 4, 256), 8, (1, 1, 2), dict(samples='sym', dimcap=1)))
             cfgs.append(('2d', (1, 16, 256), 8, (1, 2), dict(samples='sym', dimcap=1)))
-            # binary64 part: any whole-microsecond interval (ranges split so that each FP query stays small)
-            for lo, hi in ((1, 999), (1000, 1999), (2000, 8191), (8192, 65535)):
-                cfgs.append(('regular', (4, 4, 256), 8, (1, 1, 1), dict(samples='fp', dt_range=(lo, hi), t0_range=(-32768, 32767) if not quick else (-1000, 1000),
-                                                                    ilxl=(2, 2), dimcap=4, ns_cap=1 if quick else 6)))
-            cfgs.append(('2d', (1, 16, 256), 8, (1, 1), dict(samples='fp', dt_range=(1, 65535), t0_range=(0, 0), dimcap=0, ns_cap=1)))
+            # binary64 part: any whole-microsecond interval.  Each item is one (interval range, start-time range, trace
+            # length) box; the solver time of a float query grows with the number of (interval, start) pairs in the box
+            fp_boxes = [((1, 4095), (-2, 2), 3), ((4096, 16383), (-2, 2), 3), ((16384, 32767), (-2, 2), 3), ((32768, 49151), (-2, 2), 3),
+                        ((49152, 65535), (-2, 2), 3), ((1, 999), (0, 0), 2), ((1, 999), (-1000, -1000), 7), ((1000, 1063), (7, 7), 100),
+                        ((1000, 1003), (-32768, 32767), 3)]
+            if not quick:
+                fp_boxes += [((lo, lo + 4095), (-16, 16), 3) for lo in range(1, 65535, 4096)]
+                fp_boxes += [((1000, 1999), (7, 7), 100), ((1000, 1031), (-32768, 32767), 3), ((1, 1023), (0, 0), 256), ((333, 333 + 63), (-32768, 32767), 5), ((65000, 65535), (-32768, -32000), 4), ((65000, 65535), (32000, 32767), 4)]
+            for dtr, t0r, ns in fp_boxes:
+                dtr = (dtr[0], min(dtr[1], 65535))
+                cfgs.append(('regular', (4, 4, 256), 8, (1, 1, 1), dict(samples='fp', dt_range=dtr, t0_range=t0r, ilxl=(2, 2), dimcap=4, ns_fixed=ns)))
+            cfgs.append(('2d', (1, 16, 256), 8, (1, 1), dict(samples='fp', dt_range=(1, 65535), t0_range=(0, 0), dimcap=0, ns_fixed=3)))
         if prop == 'C11':
             for fam in ('il-from-zero', 'il-interior', 'xl-from-zero', 'xl-interior', 'both-interior'):
                 for ri in (False, True):
@@ -1088,8 +1108,11 @@ def items_for(prop, tier):
         for kind, bs, rate, nb, o in cfgs:
             desc = 'segy-%s|%s|bs=%s|rate=%s|nb=%s|%s' % (kind, prop, 'x'.join(map(str, bs)), rate, 'x'.join(map(str, nb)),
                                                         ','.join('%s=%s' % kv for kv in sorted(o.items())))
+            isfp = o.get('samples') == 'fp'
+            if isfp:
+                o = dict(o, cvc5_s=400 if quick else 1500)
             it = _I(desc, (lambda kind=kind, bs=bs, rate=rate, nb=nb, o=o: segy_item(kind, bs, rate, nb, {prop}, o)),
-                    timeout_s=250 if quick else 600, solver_ms=10000 if quick else 60000)
+                    timeout_s=(1500 if quick else 5400) if isfp else (250 if quick else 600), solver_ms=10000 if quick else 60000)
             it.meta = dict(kind='segy-' + kind, bs=list(bs), rate=rate, nb=list(nb), opts=dict(o), prop=prop)
             items.append(it)
         if prop in ('C04', 'C05'):
